@@ -159,7 +159,7 @@ Ltac split4 := split; [|split; [|split]].
 Lemma sstate_rel_step cf s sp e : sstate_rel cf s sp -> sstate_rel cf (step cf s e) (sstep cf sp e).
 Proof.
   intros (Hin & Hn & Hr & Hf).
-  destruct e as [m|k id|id| | |b|]; cbn [step sstep].
+  destruct e as [m|k id|id| | |b| | |did]; cbn [step sstep].
   - destruct (Nat.eqb (length (rm_payload m)) 0) eqn:Hne.
     + unfold publish. rewrite Hne. unfold sstate_rel.
       cbn [g_in g_next g_rtmp_cache g_flv_cache ss_in ss_n ss_rtmp ss_flv]. split4; try assumption. congruence.
@@ -177,6 +177,8 @@ Proof.
       split4; [reflexivity|assumption| |]; eapply cache_rel_clear; eassumption.
     + unfold sstate_rel. split4; try assumption. congruence.
   - unfold feed_ts, sstate_rel. cbn [g_in g_next g_rtmp_cache g_flv_cache]. split4; assumption.
+  - unfold sstate_rel. cbn [g_in g_next g_rtmp_cache g_flv_cache]. split4; assumption.
+  - unfold sstate_rel. cbn [g_in g_next g_rtmp_cache g_flv_cache]. split4; assumption.
   - unfold sstate_rel. cbn [g_in g_next g_rtmp_cache g_flv_cache]. split4; assumption.
 Qed.
 
